@@ -1133,7 +1133,8 @@ def problems(case, ans):
         if not ok_kind:
             out.append(('error-kind', '%s/%s: %s' % (outer, inner, _short(text))))
         names = [n for n in case.get('names', ()) if n is not None]
-        if names and not any(n in text for n in names) and inner != 'IncompleteIncludeError':
+        # the message may show the name with the separators normalised (a\\b.aml -> a/b.aml): that still names the directive
+        if names and not any(n in text or n.replace('\\', '/') in text for n in names) and inner != 'IncompleteIncludeError':
             out.append(('error-name', 'the message does not name the directive %r: %s' % (names, _short(text))))
         return out
     # expect == 'equal'
